@@ -30,7 +30,7 @@ class World(object):
                  store="file", queue_type="classic", execution_ttl=86400, tz="UTC0", script=None,
                  functions=(), validate_asl=False, caps=(1000, 1000, 100), orphan_ms=600000,
                  max_steps=200000, trace=False, worker_hook=None, message_ttl=0, region="local",
-                 initial_store=None, crash_prefetch=0.0):
+                 initial_store=None, crash_prefetch=0.0, instance_ids=None):
         patches.install(REPO_PY)
         patches.gc_point()
         lat = LATENCY_PROFILES[latency] if isinstance(latency, str) else latency
@@ -58,7 +58,9 @@ class World(object):
         self.api = ApiClient(sim)
         self.nodes = []
         for i in range(nodes):
-            cfg = make_config("inst%d" % i, transport, store_url, queue_type, execution_ttl, region, validate_asl,
+            # (instance ids are free text in the engine's configuration - the shipped one is a UUID; "inst<i>" unless
+            # the scenario names them)
+            cfg = make_config((instance_ids[i] if instance_ids and i < len(instance_ids) else "inst%d" % i), transport, store_url, queue_type, execution_ttl, region, validate_asl,
                               caps, orphan_ms, message_ttl)
             n = Node(sim, "n%d" % i, cfg)
             self.nodes.append(n)
